@@ -424,11 +424,13 @@ def bpe_train(char_list, vocab_size=10000, min_count=1, max_char_code=0):
     code_list = [pair_to_replace]
     code_lengths[new_code] = pair_length(pair_to_replace, code_lengths, max_char_code)
 
+    n_merges_applied = 0
     while len(tokens) < vocab_size:
         for i, char_array in enumerate(compressed_chars):
             compressed_chars[i], pair_counts = contract_and_count_pairs(
                 char_array, pair_to_replace, pair_counts, new_code
             )
+        n_merges_applied += 1
 
         pair_counts.pop(pair_to_replace)
         new_code += 1
@@ -450,6 +452,11 @@ def bpe_train(char_list, vocab_size=10000, min_count=1, max_char_code=0):
             code_lengths[new_code] = pair_length(pair_to_replace, code_lengths, max_char_code)
         else:
             break
+
+    if n_merges_applied < len(tokens):
+        # the vocabulary limit was reached: the last learned merge is still to be applied
+        for i, char_array in enumerate(compressed_chars):
+            compressed_chars[i] = contract_pair(char_array, pair_to_replace, new_code)
 
     return tokens, code_list, compressed_chars, max_char_code
 
